@@ -42,7 +42,7 @@ type Config struct {
 
 func DefaultConfig() Config {
 	return Config{
-		RepoDir: "/repo", HarnessDir: "/verif/harness", Workers: 16,
+		RepoDir: "/repo", HarnessDir: filepath.Join(verifRoot(), "harness"), Workers: 16,
 		FeasTimeoutMs: 2000, AssertTimeoutMs: 60000, Unwind: 64, InstrBudget: 30000000,
 		MaxPaths: 200000, MaxAlloc: 1 << 18, MaxSymIndex: 256, MapOrderFork: true,
 		Solver: "z3-new", MaxViolations: 1, TimeBudget: 10 * time.Minute,
